@@ -569,6 +569,26 @@ def strategy(tier):
     return st_spec(tier)
 
 
+def enumerate_cases(tier):
+    """deterministic regression cases, run in addition to the generated ones:
+    the event of the known finding (on a triangle edge of LE-2D-FEM-19, deep
+    inside the support) with two neighbours at +-1e-9 um^2, through both
+    routes"""
+    a, dfm = 58.26391743544122, 0.02530816512911755
+    for route in ("numeric", "scalar-temp", "array-temp"):
+        yield {
+            "lut": {"kind": "builtin", "name": "LE-2D-FEM-19", "how": "ident"},
+            "cfg": {"cw": 20.0, "fr": 0.04, "px": 0.0},
+            "visc": {"route": route, "eta": 6.0, "mkey": "mc049", "alias": 0,
+                     "model": "buyukurganci-2022", "tfrac": 0.5, "tkind": "const",
+                     "tseed": 1},
+            "pts": {"seed": 0, "n": 3, "mix": [1, 0, 0, 0, 0, 0],
+                    "explicit": [[a - 1e-9, dfm], [a, dfm], [a + 1e-9, dfm]]},
+            "dtype": "f8",
+            "ops": [{"op": "single", "seed": 1}, {"op": "routes", "seed": 2}],
+        }
+
+
 def sample_view(spec):
     return spec
 
@@ -867,12 +887,21 @@ def _run(spec, rec, d):
 
     # ---- query points in LUT coordinates -> caller's units
     ps = spec["pts"]
-    n = int(ps["n"])
-    xq, dq, kind, node = make_points(model, ps["seed"], n, ps["mix"])
-    x_user = xq * (cfg["cw"] / model.cw) ** p
-    x_user = np.where(x_user > 1e-3, x_user, 1e-3)
-    d_user = dq + own_pxdelta(cx.featx, x_user, cfg["px"])
-    d_user = np.clip(d_user, 0.0, 1.0)
+    if ps.get("explicit"):
+        # fixed events in the caller's units (enumerated regression cases)
+        ex = np.array(ps["explicit"], dtype=float).reshape(-1, 2)
+        n = len(ex)
+        x_user, d_user = ex[:, 0].copy(), ex[:, 1].copy()
+        kind = np.zeros(n, dtype=int)
+        node = np.full(n, -1, dtype=int)
+        rec.cls("pts:explicit")
+    else:
+        n = int(ps["n"])
+        xq, dq, kind, node = make_points(model, ps["seed"], n, ps["mix"])
+        x_user = xq * (cfg["cw"] / model.cw) ** p
+        x_user = np.where(x_user > 1e-3, x_user, 1e-3)
+        d_user = dq + own_pxdelta(cx.featx, x_user, cfg["px"])
+        d_user = np.clip(d_user, 0.0, 1.0)
     nf = np.flatnonzero(kind == KINDS.index("nonfinite"))
     for j, i in enumerate(nf):
         val = [np.nan, np.inf, -np.inf][j % 3]
